@@ -44,6 +44,7 @@ domain:    names Policy-valid ([!-9;-~]+, not starting with '#' or '-', distinct
 """
 import copy
 import io
+import os
 import json
 import random
 from concurrent.futures import ThreadPoolExecutor
@@ -414,7 +415,7 @@ def sep_lines(rng, kinds):
             for c in kinds]
 
 
-def variants(rng, base, np_, full, armor_hdrs):
+def variants(rng, base, np_, full, armor_hdrs, armor_ok=True, sig_bools=(True, False)):
     """the families of inputs for which TLC has checked that the reader returns P.
     yields (name, lines, diag) -- diag: white-space-only lines involved (not a verdict)"""
     n = len(base)
@@ -443,9 +444,9 @@ def variants(rng, base, np_, full, armor_hdrs):
         for i, p in enumerate(paras):
             out += (sep_lines(rng, kinds) if i else []) + p
         yield "sep:" + "+".join(kinds), out, True
-    if np_ == 1:
+    if np_ == 1 and armor_ok:
         shapes = [{"nh": nh, "b": b, "sb": sb, "sh": sh} for nh in armor_hdrs for b in (True, False)
-                  for sb in (True, False) for sh in (True, False)]
+                  for sb in sig_bools for sh in sig_bools]
         for shape in (shapes if full else rng.sample(shapes, 2)):
             tag = "armor[nh=%d,b=%d,sb=%d,sh=%d]" % (shape["nh"], shape["b"], shape["sb"], shape["sh"])
             a = armor_lines(rng, base, shape)
@@ -458,7 +459,7 @@ def variants(rng, base, np_, full, armor_hdrs):
             yield tag + "+lead-ws", lead_seq(rng, ws=True) + a, True
 
 
-def replay_case(ctx, case, rng, canonical, full, stats, armor_hdrs):
+def replay_case(ctx, case, rng, canonical, full, stats, armor_hdrs, armor_fields=3, sig_bools=(True, False)):
     """returns list of (job, message) violations; drift goes to ctx"""
     conc = CaseConc(rng, case, canonical)
     np_ = len(case["doc"])
@@ -474,6 +475,7 @@ def replay_case(ctx, case, rng, canonical, full, stats, armor_hdrs):
     check_domain(model)
     model_text = "".join(ln["text"] + "\n" for ln in model)
     exp_json = [[list(kv) for kv in p] for p in expected]
+    first_dump = build_and_dump(expected[:1])
     if textT != model_text:
         ctx.drift("dump() differs from Dump(P) of the specification: %r vs %r" % (textT, model_text))
         stats["skipped_due_to_drift"] = stats.get("skipped_due_to_drift", 0) + 1
@@ -490,7 +492,8 @@ def replay_case(ctx, case, rng, canonical, full, stats, armor_hdrs):
             if msg:
                 bad.append((job, msg))
         stats["variant:padded-dump"] = stats.get("variant:padded-dump", 0) + 1
-    vs = base_jobs if base_jobs is not None else variants(rng, model, np_, full, armor_hdrs)
+    vs = base_jobs if base_jobs is not None else variants(
+        rng, model, np_, full, armor_hdrs, armor_ok=sum(len(p) for p in case["doc"]) <= armor_fields, sig_bools=sig_bools)
     nforms = len(FORMS)
     for vi, (name, lines, diag) in enumerate(vs):
         if lines and lines[0]["c"] != "?":
@@ -511,19 +514,19 @@ def replay_case(ctx, case, rng, canonical, full, stats, armor_hdrs):
                 final_nl = False
             for api in apis:
                 job = {"lines": texts, "form": form, "final_nl": final_nl, "api": api, "expected": exp_json,
-                       "expected_dump": textT, "variant": name}
+                       "expected_dump": textT if api.endswith("iter") else first_dump, "variant": name}
                 stats["runs"] += 1
                 msg = run_doc(job)
                 if not msg:
                     continue
-                if diag:
-                    ctx.drift("white-space-only line variant %s: %s" % (name, msg))
-                elif api == "one" and np_ > 1:
-                    ctx.drift("Deb822(x) on a multi-paragraph document: %s" % msg)
-                elif api in ("Dsc", "Changes", "Dsc.iter", "Changes.iter") and zone and (form not in ("str", "bytes") or api.endswith(".iter")):
+                if api in ("Dsc", "Changes", "Dsc.iter", "Changes.iter") and zone and (form not in ("str", "bytes") or api.endswith(".iter")):
                     stats["gpgmv_zone_divergences"] = stats.get("gpgmv_zone_divergences", 0) + 1
                     if stats["gpgmv_zone_divergences"] <= 2:
                         ctx.drift("UNSPECIFIED (%s): input %r: %s" % (GPGMV_ZONE, make_input("lines_nl", texts), msg))
+                elif diag:
+                    ctx.drift("white-space-only line variant %s: %s" % (name, msg))
+                elif api == "one" and np_ > 1:
+                    ctx.drift("Deb822(x) on a multi-paragraph document: %s" % msg)
                 else:
                     bad.append((job, msg))
     return bad
@@ -609,45 +612,47 @@ def record(lines, form, final_nl=True, strict=None):
             "obs": obs, "final": final}
 
 
-def corrupt(t, how):
-    """negative controls: documents/observations the specification must NOT explain"""
-    t = copy.deepcopy(t)
-    if how == "value" and t["final"] and t["final"][-1]:
-        t["final"][-1][-1]["v"][-1] += "x"
-        return t
-    if how == "order" and t["final"] and len(t["final"][-1]) >= 2 and t["obs"][-1]["last"] == t["final"][-1]:
-        f = t["final"][-1]
-        f[0], f[1] = f[1], f[0]
-        t["obs"][-1]["last"] = copy.deepcopy(f)
-        return t
-    if how == "count":
-        for o in t["obs"]:
-            if o["np"] >= 1:
-                o["np"] += 1
-                return t
-    if how == "dropline":
-        for i, ln in enumerate(t["lines"]):
-            if ln["c"] in ("Single", "Multi") and i + 1 < len(t["lines"]):
-                del t["lines"][i]
-                del t["obs"][i]
-                return t
-    if how == "comment-ends-value":
-        for i, ln in enumerate(t["lines"][:-1]):
-            if ln["c"] == "Comment" and t["lines"][i + 1]["c"] == "Cont" and i > 0 and t["lines"][i - 1]["c"] in ("Single", "Multi", "Cont"):
-                t["lines"][i] = {"c": "Blank", "k": "", "t": "", "sp": False}
-                return t
-    return None
+def _ctl(lines, finals):
+    """a control trace from (class, k, t) triples and the claimed result after every line"""
+    return {"lines": [{"c": c, "k": k, "t": t, "sp": c in ("Single", "ArmorHeader")} for c, k, t in lines],
+            "obs": [{"np": len(f), "last": f[-1] if f else []} for f in finals], "final": finals[-1]}
+
+
+def _f(k, *v):
+    return {"k": k, "v": list(v)}
+
+
+# negative controls: hand-written (document, claimed observations) pairs that the specification must
+# NOT explain.  They do not depend on the code under test, so they stay wrong whatever it does.
+STATIC_CONTROLS = [
+    # wrong value
+    _ctl([("Single", "A", "b")], [[[_f("A", "x")]]]),
+    # first line not trimmed
+    _ctl([("Single", "A", "b")], [[[_f("A", "b ")]]]),
+    # fields in the wrong order
+    _ctl([("Single", "A", "b"), ("Single", "B", "c")], [[[_f("A", "b")]], [[_f("B", "c"), _f("A", "b")]]]),
+    # a blank line that does not separate
+    _ctl([("Single", "A", "b"), ("Blank", "", ""), ("Single", "B", "c")],
+         [[[_f("A", "b")]], [[_f("A", "b")]], [[_f("A", "b"), _f("B", "c")]]]),
+    # a comment that ends the value
+    _ctl([("Multi", "A", ""), ("Cont", "", " x"), ("Comment", "", ""), ("Cont", "", " y")],
+         [[[_f("A", "")]], [[_f("A", "", " x")]], [[_f("A", "", " x")]], [[_f("A", "", " x")]]]),
+    # continuation line not verbatim
+    _ctl([("Single", "A", "b"), ("Cont", "", " x ")], [[[_f("A", "b")]], [[_f("A", "b", " x")]]]),
+    # a leading blank line that ends the input
+    _ctl([("Blank", "", ""), ("Single", "A", "b")], [[], []]),
+    # an armor header read as a field
+    _ctl([("PgpBeginMsg", "", ""), ("ArmorHeader", "Hash", "SHA512"), ("Blank", "", ""), ("Single", "A", "b")],
+         [[], [], [], [[_f("Hash", "SHA512"), _f("A", "b")]]]),
+    # the signature read as a second paragraph
+    _ctl([("PgpBeginMsg", "", ""), ("Blank", "", ""), ("Single", "A", "b"), ("PgpBeginSig", "", ""), ("Single", "V", "1"),
+          ("PgpEnd", "", "")],
+         [[], [], [[_f("A", "b")]], [[_f("A", "b")]], [[_f("A", "b")], [_f("V", "1")]], [[_f("A", "b")], [_f("V", "1")]]]),
+]
 
 
 def validate(ctx, traces, cfg="TraceDeb822Reader.cfg", with_controls=True):
-    controls = []
-    if with_controls:
-        for how in ("value", "order", "count", "dropline", "comment-ends-value"):
-            for t in traces:
-                c = corrupt(t, how)
-                if c:
-                    controls.append(c)
-                    break
+    controls = STATIC_CONTROLS if with_controls else []
     acc, _, r = core.validate_traces(ctx, "TraceDeb822Reader", cfg, traces, extra_env={"TRACE_DIAG": "0"},
                                      controls=controls)
     rejected = [i for i in range(1, len(traces) + 1) if i not in acc]
@@ -711,8 +716,10 @@ def run(ctx):
     rng = ctx.rng
     ctx.import_repo()
     workers = min(8, core.NCPU)
-    maxtotal = 4 if quick else 5
-    armor_hdrs = [1] if quick else [0, 1, 2]
+    workers = min(workers, int(os.environ.get("VERIF_TLC_WORKERS", "8") or 8))
+    maxtotal = 3 if quick else 4            # documents emitted as CASE lines and replayed
+    armor_fields = 2 if quick else 3        # single paragraphs checked inside armor
+    armor_hdrs = [0, 1] if quick else [0, 1, 2]
     ctx.assumptions += [
         "bounded: documents of <= 3 paragraphs x <= 3 fields, <= %d fields in all, values with empty/non-empty first line and 0..2 continuation lines; armor shapes nh in %s x blank before signature x blank/header after BEGIN PGP SIGNATURE" % (maxtotal, armor_hdrs),
         "closed automaton: one line per class, 2 names; history-free VIEW",
@@ -737,24 +744,44 @@ def run(ctx):
         s = re.sub(r"(?m)^INVARIANT .*\n", "", s)
         return s + "".join("INVARIANT %s\n" % i for i in inv)
 
-    jobs = [
+    hdrs = "{%s}" % ", ".join(map(str, armor_hdrs))
+    inv_deep = ["RoundTrip", "ParseOneOk", "CommentInvariant", "SeparatorInvariant"]
+    light = [
         dict(name="lts", cfg="MC_Deb822Reader_lts.cfg", workers=1, tags={"EDGE"}),
         dict(name="lts_nows", cfg="MC_Deb822Reader_lts_nows.cfg", workers=1, tags={"EDGE"}),
-        dict(name="bnd_docs", cfg=bnd_cfg(inv_multi, MaxTotal=str(maxtotal), Emit="TRUE"), workers=workers, tags={"CASE"}),
-        dict(name="bnd_armor", cfg=bnd_cfg(inv_armor, MaxPara="1", MaxTotal="3",
-                                           ArmorHdrs="{%s}" % ", ".join(map(str, armor_hdrs))), workers=max(2, workers // 2), tags=set()),
     ]
+    if quick:
+        heavy = [
+            dict(name="bnd_docs", cfg=bnd_cfg(inv_multi, MaxTotal=str(maxtotal), Emit="TRUE"), workers=workers, tags={"CASE"}),
+            dict(name="bnd_armor", cfg=bnd_cfg(inv_armor, MaxPara="1", MaxTotal=str(armor_fields), ArmorHdrs=hdrs,
+                                               SigBools="{TRUE}"), workers=workers, tags=set()),
+        ]
+    else:
+        heavy = [
+            dict(name="bnd_docs", cfg=bnd_cfg(inv_multi, MaxTotal=str(maxtotal), Emit="TRUE"), workers=workers, tags={"CASE"}),
+            dict(name="bnd_armor", cfg=bnd_cfg(inv_armor, MaxPara="1", MaxTotal=str(armor_fields), ArmorHdrs=hdrs),
+                 workers=workers, tags=set()),
+            dict(name="bnd_wide", cfg=bnd_cfg(inv_multi[:-1], MaxTotal="9", MaxCont="1", ShapeMode="1"), workers=workers, tags=set()),
+            dict(name="bnd_deep", cfg=bnd_cfg(inv_deep, MaxTotal="5"), workers=workers, tags=set()),
+        ]
     controls = NEG_CONTROLS if not quick else [NEG_CONTROLS[ctx.seed % len(NEG_CONTROLS)], NEG_CONTROLS[(ctx.seed + 2) % len(NEG_CONTROLS)]]
     for const, val, inv in controls:
-        jobs.append(dict(name="neg:%s=%s" % (const, val), expect=inv, workers=1, tags=set(),
-                         cfg=cfg_text("MC_Deb822Reader_bnd.cfg", MaxTotal="2", MaxCont="1", ArmorHdrs="{1}", **{const: val})))
+        light.append(dict(name="neg:%s=%s" % (const, val), expect=inv, workers=1, tags=set(),
+                          cfg=cfg_text("MC_Deb822Reader_bnd.cfg", MaxTotal="2", MaxCont="1", ArmorHdrs="{1}", **{const: val})))
     timeout = 900 if quick else 3600
 
     def one(j):
         return core.run_tlc("Deb822Reader", j["cfg"], ctx.work, workers=j["workers"], want_tags=j["tags"], timeout=timeout)
 
-    with ThreadPoolExecutor(max_workers=4 if quick else 3) as ex:
-        results = list(ex.map(one, jobs))
+    # the heavy configurations one after the other with all workers, the light ones beside them
+    with ThreadPoolExecutor(max_workers=3) as ex:
+        f_heavy = ex.submit(lambda: [one(j) for j in heavy])
+        f_light = [ex.submit(one, j) for j in light[:2]]
+        r_light = [f.result() for f in f_light]
+        f_light = [ex.submit(one, j) for j in light[2:]]
+        r_light += [f.result() for f in f_light]
+        jobs = light + heavy
+        results = r_light + f_heavy.result()
     res = {}
     for j, r in zip(jobs, results):
         ctx.tlc_runs.append({"module": "Deb822Reader", "config": j["name"], "generated": r.generated, "distinct": r.distinct,
@@ -779,7 +806,10 @@ def run(ctx):
     ctx.extra["edges_per_branch"] = dict(sorted(per_branch.items()))
     ctx.extra["model"] = {"automaton_states": res["lts"].distinct, "automaton_edges": len(edges),
                           "documents": res["bnd_docs"].distinct, "single_paragraph_documents_armored": res["bnd_armor"].distinct,
-                          "MaxPara": 3, "MaxFields": 3, "MaxCont": 2, "MaxTotal": maxtotal, "ArmorHdrs": armor_hdrs}
+                          "MaxPara": 3, "MaxFields": 3, "MaxCont": 2, "MaxTotal": maxtotal, "ArmorHdrs": armor_hdrs,
+                          "ArmorMaxFields": armor_fields,
+                          "wide_documents(3x3, 2 shapes)": res["bnd_wide"].distinct if "bnd_wide" in res else 0,
+                          "deep_documents(MaxTotal 5)": res["bnd_deep"].distinct if "bnd_deep" in res else 0}
     cases = res["bnd_docs"].printed.get("CASE", [])
     if len(cases) != res["bnd_docs"].distinct or any(not isinstance(c, dict) for c in cases):
         raise core.MachineryError("bounded configuration: %d CASE lines for %d states" % (len(cases), res["bnd_docs"].distinct))
@@ -801,7 +831,7 @@ def run(ctx):
             full = (nfields <= 2) if quick else (nfields <= 3 and c == 0)
             nfull += full
             bad = replay_case(ctx, case, crng, canonical=(c == 0 and idx % 2 == 0), full=full, stats=stats,
-                              armor_hdrs=armor_hdrs)
+                              armor_hdrs=armor_hdrs, armor_fields=armor_fields, sig_bools=(True,) if quick else (True, False))
             ctx.case_seen(("case", skey(case["shape"])), nontrivial=bool(case["doc"]))
             for job, msg in bad:
                 n_viol += 1
